@@ -129,3 +129,57 @@ Example C19_hypotheses_inhabited :
     [ONone; ONone; ONone; ONone; ONone; ONone; OPop (Some 1); OPop (Some 2); OPop (Some 3); OPop (Some 4); ONone;
      OPop (Some 4); OPop (Some 5); OPop (Some 6); ONone; OPop None].
 Proof. vm_compute. repeat split; reflexivity. Qed.
+
+(* ---- label lists WITH restarts (queue-level C04 / C20 across a restart) -------------------------------------
+   Restart = graceful stop at quiescence, the queue object is gone, the transient store is wiped, a fresh durable
+   queue runs LoadFromMsgStorage over the same persistent store.  Specification: the ghost run [gspec_run] - the
+   unlimited list with its delivered-unsettled set; a restart replaces the list by the persistent messages that
+   were ready or delivered-unsettled, in id order.  Hypotheses [no_findings_restart]: as before, the queue is
+   durable, and a purge happens only when the persistent store has nothing pending and no persistent message is
+   delivered-unsettled (F41: what is pending is written after the purge and comes back at the restart; Purge also
+   deletes the store entries of unsettled deliveries). *)
+Theorem C19_refines_unlimited_with_restarts_partial : forall c ls,
+  wf_client ls = true -> no_findings_restart c ls = true ->
+  snd (q_run c q_init ls) = snd (gspec_run ghost_init ls) /\
+  q_abs (fst (q_run c q_init ls)) = g_list (fst (gspec_run ghost_init ls)) /\
+  qlen (fst (q_run c q_init ls)) = Z.of_nat (length (g_list (fst (gspec_run ghost_init ls)))).
+Proof. exact refines_unlimited_restarts. Qed.
+Print Assumptions C19_refines_unlimited_with_restarts_partial.
+
+Theorem C19_config_independent_with_restarts_partial : forall m1 m2 ls1 ls2,
+  wf_client ls1 = true -> wf_client ls2 = true -> client ls1 = client ls2 ->
+  no_findings_restart (mkCfg true m1) ls1 = true -> no_findings_restart (mkCfg true m2) ls2 = true ->
+  let r1 := q_run (mkCfg true m1) q_init ls1 in
+  let r2 := q_run (mkCfg true m2) q_init ls2 in
+  client_outs ls1 (snd r1) = client_outs ls2 (snd r2) /\ q_abs (fst r1) = q_abs (fst r2).
+Proof. exact config_independent_restarts. Qed.
+Print Assumptions C19_config_independent_with_restarts_partial.
+
+Theorem C20_queue_length_with_restarts_partial : forall c ls1 ls2,
+  wf_client (ls1 ++ ls2) = true -> no_findings_restart c (ls1 ++ ls2) = true ->
+  let s := fst (q_run c q_init ls1) in
+  qlen s = Z.of_nat (length (q_abs s)) /\ q_abs s = g_list (fst (gspec_run ghost_init ls1)).
+Proof. exact queue_length_restarts. Qed.
+Print Assumptions C20_queue_length_with_restarts_partial.
+
+(* Non-vacuity: limit 2, five persistent messages and a transient one, one delivered and left unsettled, then a
+   restart of a queue DEEPER than the limit: it comes back swapped with 2 messages in the ring and 3 ahead on
+   disk, counted 5; the unsettled delivery returns first; the transient message is gone; everything is delivered
+   in id order through three more reload rounds (with a limit of 2 a round loads one message).  The same client operations under limit 100 give the same outputs. *)
+Definition C19_restart_example : list label :=
+  [Push 1 true; Push 2 true; Push 3 true; Push 4 true; Push 5 true; Push 6 false; Pop; Restart;
+   Pop; Pop; LoaderTurn; Pop; LoaderTurn; Pop; LoaderTurn; Pop; LoaderTurn; Pop].
+Definition C19_restart_example_100 : list label :=
+  [Push 1 true; Push 2 true; Push 3 true; Push 4 true; Push 5 true; Push 6 false; Pop; Restart;
+   Pop; Pop; Pop; Pop; Pop; Pop].
+
+Example C19_restart_hypotheses_inhabited :
+  wf_client C19_restart_example = true /\ no_findings_restart (mkCfg true 2) C19_restart_example = true /\
+  no_findings_restart (mkCfg true 100) C19_restart_example_100 = true /\
+  client C19_restart_example = client C19_restart_example_100 /\
+  (let s := fst (q_run (mkCfg true 2) q_init (firstn 8 C19_restart_example)) in
+   mem s = [1; 2] /\ swapped s = true /\ abs_disk s = [3; 4; 5] /\ qlen s = 5%Z) /\
+  client_outs C19_restart_example (snd (q_run (mkCfg true 2) q_init C19_restart_example)) =
+    [ONone; ONone; ONone; ONone; ONone; ONone; OPop (Some 1); ONone;
+     OPop (Some 1); OPop (Some 2); OPop (Some 3); OPop (Some 4); OPop (Some 5); OPop None].
+Proof. vm_compute. repeat split; reflexivity. Qed.
